@@ -163,6 +163,7 @@ type State struct {
 	loopSt  map[int]*loopEntry
 	dry     *dryRun
 	vc      *FuncVC
+	spawned []spawnRec
 	axioms  []axiomTerm // assumed lazily: added to an obligation only when relevant to its goal
 	quiet   bool        // spec translation: assumptions produced by loads are dropped
 }
@@ -179,7 +180,7 @@ type loopEntry struct {
 
 func (st *State) clone() *State {
 	n := &State{g: st.g, heaps: make(map[string]string, len(st.heaps)), old: st.old, written: make(map[string]bool, len(st.written)),
-		loopSt: map[int]*loopEntry{}, dry: st.dry, vc: st.vc, axioms: st.axioms}
+		loopSt: map[int]*loopEntry{}, dry: st.dry, vc: st.vc, axioms: st.axioms, spawned: append([]spawnRec(nil), st.spawned...)}
 	for k, v := range st.heaps {
 		n.heaps[k] = v
 	}
